@@ -55,14 +55,17 @@ type (
 
 const BestCompression = "bestCompression"
 
+// defaultBestCompressionLevels the default levels of best compression
+var defaultBestCompressionLevels = map[string]int{
+	// -1则会选择默认的压缩级别
+	"br":   -1,
+	"gzip": gzip.BestCompression,
+}
+
 var defaultCompressSrvList = NewServices([]CompressOption{
 	{
-		Name: BestCompression,
-		Levels: map[string]int{
-			// -1则会选择默认的压缩级别
-			"br":   -1,
-			"gzip": gzip.BestCompression,
-		},
+		Name:   BestCompression,
+		Levels: defaultBestCompressionLevels,
 	},
 })
 var defaultCompressSrv = NewService()
@@ -110,10 +113,20 @@ func (cs *compressSrvs) Get(name string) *compressSrv {
 func (cs *compressSrvs) Reset(opts []CompressOption) {
 	// 此处不删除存在的压缩服务，因为compress实例并不占多少内存
 	// 也避免配置了bestCompression后删除
+	hasBestCompression := false
 	for _, opt := range opts {
+		if opt.Name == BestCompression {
+			hasBestCompression = true
+		}
 		srv := NewService()
 		srv.SetLevels(opt.Levels)
 		cs.m.Store(opt.Name, srv)
+	}
+	// 如果配置中已无bestCompression，则恢复为默认配置，避免之前的自定义配置一直生效
+	if !hasBestCompression {
+		srv := NewService()
+		srv.SetLevels(defaultBestCompressionLevels)
+		cs.m.Store(BestCompression, srv)
 	}
 }
 
